@@ -1,6 +1,7 @@
 #!/usr/bin/env python3
 """Regenerates MANIFEST.json from the table below (kept in one place so that it stays valid)."""
 import json
+import re
 import os
 
 HERE = os.path.dirname(os.path.dirname(os.path.abspath(__file__)))
@@ -322,6 +323,14 @@ def main():
         cat, text, note, tech, ref = CHECKS[pid]
         if pid in LATER:
             text = text + "  " + LATER[pid]
+        # theorem counts and the statements added after the audit are read off the Props file itself
+        pv = open(os.path.join(HERE, "coq", "theories", "Props", pid + ".v")).read()
+        nthm = len(re.findall(r"^Theorem\s", pv, re.M))
+        text = re.sub(r"\(Props/%s\.v, \d+" % pid, "(Props/%s.v, %d" % (pid, nthm), text)
+        if "==== added after the audit" in pv:
+            added = re.findall(r"^Theorem\s+(\S+)", pv.split("==== added after the audit", 1)[1], re.M)
+            text += ("  Added after a read-only audit of the pinned statements against the property text "
+                     "(selftest/audit/REPORT-2026-10-02.md; DESIGN.md 13.6): " + ", ".join(added) + ".")
         checks.append({
             "property_id": pid,
             "quick_cmd": "./check %s --tier quick" % pid,
